@@ -467,11 +467,14 @@ func main() {
 		// library shows up as a wrong result or as a runtime crash of this process
 		var wg sync.WaitGroup
 		var bad atomic.Int64
+		start := make(chan struct{})
+		// templates are parsed before the barrier, so that the very first calls into the library start together
 		for g := 0; g < 64; g++ {
 			wg.Add(1)
 			go func(g int) {
 				defer wg.Done()
 				in := initialisms[g%len(initialisms)]
+				<-start
 				for _, c := range []struct{ expr, want string }{
 					{fmt.Sprintf("exported %s", q(strings.ToLower(in))), strconv.Quote(in)},
 					{fmt.Sprintf("firstIsLower %s", q("x")), "true"}, {fmt.Sprintf("snakecase %s", q("FooBar")), strconv.Quote("foo_bar")},
@@ -483,6 +486,7 @@ func main() {
 				}
 			}(g)
 		}
+		close(start)
 		wg.Wait()
 		concurrentBad = int(bad.Load())
 		if mode == "concurrent" { // only the concurrent first use (run from a race-instrumented build, several fresh processes)
